@@ -106,17 +106,14 @@ Section Top.
   Proof.
     intros A fuel x (Hg & Hp & Hss & Hx) Hst. destruct (xverify_main p Hv) as (f0 & Hf0 & Hpw & Hup).
     unfold xexec_main. rewrite Hf0.
-    set (m1 := if lenN (m_state (x_core x)) <? f_ssize f0
-               then set_state (x_core x) (resize0 (m_state (x_core x)) (f_ssize f0)) else x_core x).
-    assert (H1 : m_stack m1 = [] /\ m_pos m1 = 0 /\ m_globals m1 = m_globals (x_core x) /\ f_ssize f0 <= lenN (m_state m1)).
-    { unfold m1. destruct (N.ltb_spec (lenN (m_state (x_core x))) (f_ssize f0)); cbn [set_state m_stack m_pos m_globals m_state];
-        repeat split; auto. rewrite lenN_resize0. lia. }
-    destruct H1 as (S1 & S2 & S3 & S4).
+    set (m1 := mkMach (m_stack (x_core x)) (m_globals (x_core x)) 0 (repeat 0%Z (nn (f_ssize f0)))).
     pose proof (xrun_top A fuel 0 f0 (set_core x m1) Hf0 Hup) as R.
-    assert (Hm : xminv p (set_core x m1)) by (unfold xminv, set_core; cbn; rewrite S3; auto).
+    assert (Hm : xminv p (set_core x m1)) by (unfold xminv, set_core; cbn; auto).
+    assert (S4 : f_ssize f0 <= lenN (m_state (x_core (set_core x m1)))) by (cbn; rewrite lenN_repeat; unfold nn; lia).
     specialize (R Hm (or_introl Hpw) S4).
     destruct (xrun A p true fuel 0 None 1 0 (set_core x m1) fl0) as [n x'| | |]; auto.
-    destruct R as (R1 & R2 & R3 & R4). auto.
+    destruct R as (R1 & R2 & (G1 & G2 & G3 & G4) & R4). split; [|exact R2].
+    unfold xminv, set_core; cbn. auto.
   Qed.
 
   (* one sample: set_input + execute_idx(dsp) *)
